@@ -32,7 +32,7 @@ def judge(ctx, events):
 
 def run(ctx):
     ctx.cov["rule"] = ("json = marshal + unmarshal of Tx / Txs / Output in library and node JSON at every lifecycle state enumerated by TLC (MC_TxLife: <= 2 inputs "
-                       "with/without recorded spent output, signed one at a time, <= 2 outputs of 6 script classes incl. undecodable scripts); amount = one "
+                       "with/without recorded spent output, signed one at a time, <= 2 outputs of 6 script classes incl. undecodable scripts) and outputs carrying every template instance / mutation of MC_ScriptClass; amount = one "
                        "satoshi amount through Output / UTXO in both dialects (decimal boundaries k*10^j +-1, 21e14, random); range = every amount in "
                        "[0, N) through node JSON, summarised by the number of mismatches (N = 10^6 quick, 2*10^8 thorough); judged by Trace_Json "
                        "(outcome ok/err, identity of projection); distinct = (event, parameters)")
@@ -43,8 +43,18 @@ def run(ctx):
     ctx.cov["tlc_generated_cases"] = ctx.cov["tlc_generated_cases_replayed"] = len(cases)
     cpath = os.path.join(ctx.tmp, "c16cases.ndjson")
     vf.write_ndjson(cpath, cases)
+    # output scripts: the template instances and mutations of MC_ScriptClass (shared with C14)
+    rc = ctx.tlc("MC_ScriptClass.tla", "MC_ScriptClass.cfg")
+    scripts = [o for o in rc["emitted"] if o.get("k") == "case"]
+    import random
+    if len(scripts) > ctx.pick(1500, 10**9):
+        scripts = random.Random(ctx.seed).sample(scripts, ctx.pick(1500, 10**9))
+    spath = os.path.join(ctx.tmp, "c16scripts.ndjson")
+    vf.write_ndjson(spath, scripts)
+    ctx.cov["tlc_generated_cases"] += len(scripts)
+    ctx.cov["tlc_generated_cases_replayed"] += len(scripts)
     out = os.path.join(ctx.tmp, "c16.ndjson")
-    ctx.run_vh(["jsonx", "-cases", cpath, "-out", out, "-range", ctx.pick(1000000, 200000000), "-n", ctx.pick(1500, 50000)], timeout=6000)
+    ctx.run_vh(["jsonx", "-cases", cpath, "-scripts", spath, "-out", out, "-range", ctx.pick(1000000, 200000000), "-n", ctx.pick(1500, 50000)], timeout=6000)
     events = vf.read_ndjson(out)
     os.unlink(out)
     judge(ctx, events)
